@@ -145,8 +145,11 @@ def build_all(quiet=False, race=False):
             run(["coq_makefile", "-f", "_CoqProject", "-o", "Makefile.coq"], cwd=COQ)
         rc, out, _ = run(["timeout", "3000", "make", "-f", "Makefile.coq", "-j%d" % NCPU, "-k"], cwd=COQ, timeout=3100)
         r.coq_log += out
-        r.coq_ok = rc == 0
+        r.coq_ok = rc == 0 and "extract_consts failed" not in r.coq_log
         r.failed_files = re.findall(r"\*\*\* \[Makefile\.coq:\d+: (\S+?)\.vo\] Error", out)
+        if "extract_consts failed" in r.coq_log:
+            # the translated tables are stale: the theorems would be about what the code said before
+            r.failed_files = ["tools/extract_consts.py (translator could not read /repo's tables)"] + r.failed_files
         r.forbidden = scan_forbidden()
         # OCaml driver from the extracted model
         ml = [os.path.join(COQ, "model.ml"), os.path.join(COQ, "model.mli")]
